@@ -13,7 +13,7 @@ from vf.oracle import conn, sph
 
 ID = "C16"
 RULE = (
-    "grids (boundary edges, closed, n_face<>n_node, antimeridian, pole) under every single index deviation (node relabelling, face order, "
+    "grids (boundary edges, closed, n_face<>n_node, antimeridian, pole, kilometre-scale cells) under every single index deviation (node relabelling, face order, "
     "start corner) x provenance {derived centres, face centres supplied by the source (displaced from the corner mean), distances supplied by "
     "the source, an MPAS source (harness-written) shipping dvEdge/dcEdge, its own edge order and cell centres, the same MPAS source without dvEdge/dcEdge (distances derived from positions in metres)} x data {every unit impulse, identity, generic, ones(constant), int} on faces and on nodes x leading dims {(), (2), (2,3)} x "
     "normalize {False, True}. non-trivial = grid with both interior and boundary edges or closed grid with >= 6 faces; distinct = (mesh, deviation, provenance)"
@@ -21,15 +21,15 @@ RULE = (
 ASSUMPTIONS = [
     "edge membership (edge->nodes, edge->faces) is read from the grid's own tables, whose correctness is C02/C03's job",
     "face centres are 'as the grid reports them' (face_lon/face_lat of a fresh grid built the same way; C04 owns their correctness)",
-    "great-circle distance reference: atan2(|a x b|, a.b); tolerance 1e-9 rad (the implementation's arccos form loses digits only for tiny arcs, which the meshes do not contain)",
+    "great-circle distance reference: atan2(|a x b|, a.b); tolerance 1e-9 rad absolute (the implementation's arccos form has a relative error of ~1e-8 on the 0.002-degree cells of the kilometre-scale meshes, far inside that); gradients are judged as difference / the grid's own reported distance at 1e-9 relative, so that the admitted distance error is not amplified",
     "normalised gradient: every leading-index slice has unit L2 norm (slices with identically zero gradient are not generated)",
 ]
 BOUNDS = {
-    "quick": "8 meshes, deviations <= 1 (relabel cap 12 per mesh; 4 for MPAS-read grids), 5 provenance cases",
-    "thorough": "12 meshes, all single deviations, 5 provenance cases",
+    "quick": "9 meshes, deviations <= 1 (relabel cap 12 per mesh; 4 for MPAS-read grids), 5 provenance cases",
+    "thorough": "15 meshes, all single deviations, 5 provenance cases",
 }
-QUICK = ["mixedpatch", "cube", "tetra", "icosa", "pyr5", "amstrip", "polefan", "isolated"]
-THOROUGH = QUICK + ["polecap", "cs2", "prism", "cubesplit"]
+QUICK = ["mixedpatch", "cube", "tetra", "icosa", "pyr5", "amstrip", "polefan", "isolated", "finequads-am"]
+THOROUGH = QUICK + ["polecap", "cs2", "prism", "cubesplit", "finequads", "finequads-pole"]
 LEADS = [(), (2,), (2, 3)]
 TOL = 1e-9
 
@@ -194,7 +194,10 @@ def run_case(case):
                     if elem != "n_face":
                         continue
                     gref = np.zeros_like(ref)
-                    gref[..., interior] = ref[..., interior] / ref_df[interior]
+                    # "that difference divided by the centre-to-centre distance": the distance table the grid itself reports (judged above
+                    # against geometry at 1e-9 rad absolute); dividing by the oracle's own distances instead would turn the admitted absolute
+                    # distance error into a relative gradient error of 1e-9/d, i.e. 3e-5 on kilometre-scale meshes
+                    gref[..., interior] = ref[..., interior] / (df[interior] if df.shape == ref_df.shape and np.all(df[interior] > 0) else ref_df[interior])
                     for normalize in (False, True):
                         if normalize:
                             nrm = np.sqrt((gref ** 2).sum(axis=-1, keepdims=True))
